@@ -1085,6 +1085,12 @@ class World:
                     self.info[k].entered = bool(self.guard)
         else:
             self._after_untracked_write(h, phys_before)
+            # a write through memory MyGrad does not know to be shared (a view made with tracking
+            # off): tensors that physically saw it but whose shadows are separate arrays follow
+            # the real values from now on instead of being judged against NumPy statements
+            for k in phys_before or []:
+                if k in self.S and k in self.info and not (self.S[k].size and st.size and np.shares_memory(self.S[k], st)):
+                    self.info[k].foreign = True
         del t
         if self.tracking:
             self._same_array_check(list(info.fam.members), f"inplace:{form}")
